@@ -568,6 +568,8 @@ open_contract!(wal_open_ro_n0_head0, 0, 0, scan_stub_0, true);
 open_contract!(wal_open_ro_n1_head49, 1, 49, scan_stub_1, true);
 open_contract!(wal_open_ro_n2_tail, 2, SIZE - 1, scan_stub_2, true);
 open_contract!(wal_open_rw_n2_head, 2, 99, scan_stub_2, false);
+open_contract!(wal_open_rw_n2_full, 2, SIZE, scan_stub_2, false);
+open_contract!(wal_open_ro_n1_full, 1, SIZE, scan_stub_1, true);
 
 /// open on a header with wal_size == 0 is rejected before anything is read.
 #[kani::proof]
@@ -627,9 +629,10 @@ zero_header_bytes!(wal_zero_header_bytes_pos112, SIZE);
 // payloads, the end cursor, or an error for a bad checksum / impossible length.  Loop-free hash stand-in
 // (payloads <= 4 bytes) and a small unwind bound keep CBMC's drop-glue recursion in check; the fully
 // symbolic variant above (wal_scan_matches_spec_*) does not answer within the caps.
-// STATUS: these layout harnesses do not answer within 600 s either (CBMC cannot bound std's
-// default_read_exact loop through the read stub); NOT REGISTERED, kept for a later session.  A-CODEC(scan)
-// therefore remains an assumption (DESIGN.md section 3, C05).
+// (see zero_disk below for why the disk starts concrete).
+// STATUS: only `tiny_region` answers reliably (3 s) and is registered; `empty` needs 92 symbolic bytes and
+// times out under load, every layout that contains a record exceeds 400 s - NOT REGISTERED.  scan_records is
+// instead PROVED in Verus (verus/walscan.unit) and cross-checked by the bounded native stand-in.
 pub(super) fn stub_hash4(data: &[u8]) -> blake3::Hash {
     let mut h = [0u8; 32];
     let n = data.len();
@@ -649,8 +652,34 @@ pub(super) fn stub_hash4(data: &[u8]) -> blake3::Hash {
     blake3::Hash::from_bytes(h)
 }
 
-/// write a length field and a VALID checksum for the record at region position `c` (payload bytes stay symbolic)
+/// Disk for the layout harnesses: CONCRETE zeros, on which selected bytes are then made symbolic one element
+/// at a time.  (Starting from a fully symbolic array and overwriting the steering fields does not work: CBMC
+/// then no longer constant-folds the length fields it reads back, allocates a payload of symbolic length and
+/// cannot bound std's read_exact loop.)
+fn zero_disk() {
+    unsafe {
+        DISK_BYTES = [0u8; DISK];
+        DISK_POS = 0;
+        IO_CALLS = 0;
+        IO_FAIL_AT = u32::MAX;
+    }
+}
+/// region bytes [a, b) become symbolic
+fn sym_range(a: usize, b: usize) {
+    let mut i = a;
+    while i < b {
+        unsafe {
+            DISK_BYTES[OFF as usize + i] = kani::any();
+        }
+        i += 1;
+    }
+}
+/// a well-formed record at region position `c`: symbolic sequence (not 0 in its low byte, so the header can
+/// never be the end marker), concrete length, symbolic reserved bytes and payload, VALID checksum
 fn plant_record(c: usize, len: usize) {
+    sym_range(c, c + 8);
+    sym_range(c + 12, c + 16);
+    sym_range(c + 48, c + 48 + len);
     unsafe {
         let a = OFF as usize + c;
         let lb = (len as u32).to_le_bytes();
@@ -697,7 +726,7 @@ macro_rules! scan_layout {
         #[kani::stub(blake3::hash, stub_hash4)]
         #[kani::unwind(50)]
         fn $name() {
-            any_disk();
+            zero_disk();
             $setup;
             let mut f = fake_file();
             let got = EmbeddedWal::scan_records(&mut f, OFF, $size);
@@ -731,17 +760,17 @@ fn expect_records(got: Result<(Vec<ScannedRecord>, u64)>, layout: &[(usize, usiz
 }
 
 // one valid record, then the region is too short for another header
-scan_layout!(wal_scan_layout_one_then_short_tail, 64, { plant_record(0, 3); }, |g| expect_records(g, &[(0, 3)], 51));
+scan_layout!(wal_scan_layout_one_then_short_tail, 64, { plant_record(0, 3); sym_range(51, 64); }, |g| expect_records(g, &[(0, 3)], 51));
 // one valid record that fills the region exactly
 scan_layout!(wal_scan_layout_exact_fit, 52, { plant_record(0, 4); }, |g| expect_records(g, &[(0, 4)], 52));
 // one valid record, then a zero header (whatever follows it)
-scan_layout!(wal_scan_layout_one_then_sentinel, 112, { plant_record(0, 3); plant_zero_header(51); }, |g| expect_records(g, &[(0, 3)], 51));
+scan_layout!(wal_scan_layout_one_then_sentinel, 112, { plant_record(0, 3); sym_range(51 + 12, 112); }, |g| expect_records(g, &[(0, 3)], 51));
 // two valid records, then a short tail
-scan_layout!(wal_scan_layout_two, 112, { plant_record(0, 3); plant_record(51, 2); }, |g| expect_records(g, &[(0, 3), (51, 2)], 101));
+scan_layout!(wal_scan_layout_two, 112, { plant_record(0, 3); plant_record(51, 2); sym_range(101, 112); }, |g| expect_records(g, &[(0, 3), (51, 2)], 101));
 // zero header at the start: empty log whatever the rest of the region holds
-scan_layout!(wal_scan_layout_empty, 112, { plant_zero_header(0); }, |g| expect_records(g, &[], 0));
+scan_layout!(wal_scan_layout_empty, 112, { sym_range(12, 58); sym_range(58, 104); }, |g| expect_records(g, &[], 0));
 // region smaller than a header
-scan_layout!(wal_scan_layout_tiny_region, 40, {}, |g| expect_records(g, &[], 0));
+scan_layout!(wal_scan_layout_tiny_region, 40, { sym_range(0, 40); }, |g| expect_records(g, &[], 0));
 // a record whose checksum differs from the hash of its payload in any one byte is an error
 scan_layout!(wal_scan_layout_bad_checksum, 112, {
     plant_record(0, 3);
@@ -762,7 +791,6 @@ scan_layout!(wal_scan_layout_len_too_long, 52, {
 }, |g| assert!(g.is_err(), "record running past the region end is reported"));
 // length 0 with a non-zero sequence is an error, not an end marker
 scan_layout!(wal_scan_layout_len_zero_seq_nonzero, 112, {
-    plant_zero_header(0);
     let s: u8 = kani::any();
     kani::assume(s != 0);
     unsafe { DISK_BYTES[OFF as usize + 3] = s; }
